@@ -8,6 +8,7 @@ import Lean.Data.Json
 import AsphaltModel
 import DriverLib.Ctx
 import DriverLib.Sig
+import DriverLib.Start
 
 open Lean Asphalt
 
@@ -152,6 +153,7 @@ def dispatch (j : Json) : Except String Json := do
   | "publishName" => runPublishName j
   | "ctx" => runCtx j
   | "sig" => runSig j
+  | "startup" => runStartup j
   | _ => throw s!"unknown kind {kind}"
 
 end Drv
